@@ -18,9 +18,8 @@ package tree
 //@   noeffect
 //@   ensures r0 == tvOf(u)
 
-// value equality: deterministic function of the two typed values (its own contract is property C12, package utils)
-//@ extern utils.EqualTypedValues
-//@   pure
+// value equality (utils.EqualTypedValues) is a deterministic function of the two typed values: declared `pure`
+// on its own contract in package utils (property C12)
 
 // ---------------------------------------------------------------------------
 // LeafEntry flags
